@@ -2,7 +2,14 @@ package main
 
 // One blank import per component; each registers its modes in init().
 import (
+	_ "verifharness/internal/beaconepoch"
 	_ "verifharness/internal/c19"
+	_ "verifharness/internal/config"
+	_ "verifharness/internal/faults"
+	_ "verifharness/internal/fc"
+	_ "verifharness/internal/genesischeck"
+	_ "verifharness/internal/gossip"
 	_ "verifharness/internal/pubkeycache"
 	_ "verifharness/internal/shuffle"
+	_ "verifharness/internal/ssz"
 )
